@@ -147,7 +147,11 @@ func runC10Line(in string) (out string) {
 	if a["rec"] != "-" {
 		kv := strings.Split(a["rec"], ":")
 		rec := &recpb.Record{Key: []byte(key), Value: value}
-		if kv[0] != "1" {
+		if kv[0] == "2" {
+			// a well-formed answer to a different question: envelope and record agree on another key
+			rec.Key = []byte("/v/other")
+			resp.Key = []byte("/v/other")
+		} else if kv[0] != "1" {
 			rec.Key = []byte("/v/other")
 			if len(in)%2 == 0 {
 				rec.Key = nil
@@ -253,15 +257,15 @@ func genPeers(r *vu.RNG) string {
 func genC10(r *vu.RNG, c *vu.Case) bool {
 	methods := []string{"putValue", "getValue", "getClosestPeers", "getProviders", "ping"}
 	types := []int{0, 1, 2, 3, 4, 5, 5, 6, 99, -1}
-	if c.Idx < len(methods)*len(types)*5*2 {
+	if c.Idx < len(methods)*len(types)*7*2 {
 		// every method x response type x record shape x (no peers / peers): the whole decision table
 		i := c.Idx
 		m := methods[i%len(methods)]
 		i /= len(methods)
 		t := types[i%len(types)]
 		i /= len(types)
-		rec := []string{"-", "1:1", "1:0", "0:1", "0:0"}[i%5]
-		i /= 5
+		rec := []string{"-", "1:1", "1:0", "0:1", "0:0", "2:1", "2:0"}[i%7]
+		i /= 7
 		peers := "-"
 		if i%2 == 1 {
 			peers = genPeers(r)
@@ -270,7 +274,7 @@ func genC10(r *vu.RNG, c *vu.Case) bool {
 		c.Tag("table")
 	} else {
 		m := methods[r.Intn(len(methods))]
-		rec := []string{"-", "1:1", "1:1", "1:0", "0:1", "0:0"}[r.Intn(6)]
+		rec := []string{"-", "1:1", "1:1", "1:0", "0:1", "0:0", "2:1", "2:0"}[r.Intn(8)]
 		c.In = append(c.In, fmt.Sprintf("call %s type=%d rec=%s closer=%s provs=%s", m, types[r.Intn(len(types))], rec, genPeers(r), genPeers(r)))
 	}
 	c.Tag("m-" + strings.Fields(c.In[0])[1])
